@@ -62,11 +62,12 @@ def non_empty_filter(ck, rule):
     ctx = ck.ctx
     fn, call, mapname, worker_lambda, worker = parallel_map_site(ctx)
     rets = [pa for pa in explore(ck, fn, unroll=(0, 1)) if pa.outcome == "return"]
-    if len(rets) != 1:
-        raise AnalysisError(f"{fn.where}: execute expected to have a single return")
-    v = rets[0].value
-    w = where(fn, rets[0].node)
-    return _judge_filter(ck, rule, fn, v, w)
+    if not rets:
+        raise AnalysisError(f"{fn.where}: execute has no return path")
+    ok = True
+    for k, pa in enumerate(rets):
+        ok = _judge_filter(ck, rule, fn, pa.value, where(fn, pa.node), worker, suffix="" if len(rets) == 1 else f"#{k}") and ok
+    return ok
 
 
 def no_empty_rows(ck):
@@ -74,20 +75,20 @@ def no_empty_rows(ck):
     p = ctx.p
     fn, call, mapname, worker_lambda, worker = parallel_map_site(ctx)
     rets = [pa for pa in explore(ck, fn, unroll=(0, 1)) if pa.outcome == "return"]
-    if len(rets) != 1:
-        raise AnalysisError(f"{fn.where}: execute expected to have a single return")
-    v = rets[0].value
-    w = where(fn, rets[0].node)
-    _judge_filter(ck, "C01.1", fn, v, w)
+    if not rets:
+        raise AnalysisError(f"{fn.where}: execute has no return path")
+    for k, pa in enumerate(rets):
+        _judge_filter(ck, "C01.1", fn, pa.value, where(fn, pa.node), worker, suffix="" if len(rets) == 1 else f"#{k}")
     _written_rows_sources(ck, fn)
 
 
-def _judge_filter(ck, rule, fn, v, w):
+def _judge_filter(ck, rule, fn, v, w, worker=None, suffix=""):
     ok = None
     if v[0] == "comp" and v[1] == "list" and len(v[3]) == 1 and v[2][0] == "bv":
         it, ifs = v[3][0]
         is_map = it[0] == "call" and it[1].split(".")[0] == "p_tqdm"
-        if not is_map:
+        in_process = worker is not None and any(x[0] == "app" and x[1] == worker.qualname for x in T.subterms(it))
+        if not is_map and not in_process:
             raise AnalysisError(f"{w}: execute does not return a comprehension over the parallel map: {T.show(it)[:120]}")
         want = T.mk_attr(v[2], "alignedPairs")
         conds = []
@@ -112,7 +113,7 @@ def _judge_filter(ck, rule, fn, v, w):
             raise AnalysisError(f"{w}: filtering idiom of execute not recognised: {T.show(v)[:160]}")
     else:
         raise AnalysisError(f"{w}: value returned by execute not recognised: {T.show(v)[:160]}")
-    ck.judge(ok, rule, short(fn) + ":non-empty-filter", w,
+    ck.judge(ok, rule, short(fn) + ":non-empty-filter" + suffix, w,
              "rows returned by the parallel map are kept only if they have aligned pairs",
              found="conditions: " + ", ".join(found), required="a condition on the truthiness of <row>.alignedPairs")
     return ok
